@@ -18,17 +18,22 @@ func TestDumpExtras(t *testing.T) {
 	var seed uint64 = 1
 	fmt.Sscan(os.Getenv("C13_DUMP_SEED"), &seed)
 	for _, sp := range extraSpecs("quick") {
-		if sp.Kind != "given" && sp.Kind != "multi" {
+		if sp.Kind != "given" && sp.Kind != "multi" && sp.Kind != "phase" && sp.Kind != "ambig" {
 			continue
 		}
 		r := rand.New(rand.NewPCG(seed, 0xC13))
 		unit := "github.com/csgura/fp/test/internal/c13x/" + sp.Name
 		var files map[string]string
 		var gen string
-		if sp.Kind == "given" {
+		switch sp.Kind {
+		case "given":
 			files, gen, _ = synthGiven(r, sp, unit)
-		} else {
+		case "multi":
 			files, gen = synthMulti(r, sp, unit)
+		case "phase":
+			files, gen = synthPhase(r, sp, unit)
+		default:
+			files, gen = synthAmbig(r, sp, unit)
 		}
 		for n, c := range files {
 			p := filepath.Join(dir, sp.Name, filepath.FromSlash(n))
